@@ -2,8 +2,8 @@ SPECIFICATION Spec
 CONSTANTS
   LB = 8
   LBits = 3
-  N = 768
-  NS = 28
+  N = 512
+  NS = 24
 INVARIANT NatOK
 INVARIANT ScOK
 CHECK_DEADLOCK FALSE
